@@ -5,14 +5,14 @@ C05 — Topological queries equal their combinatorial definitions.
     geometry.faces_to_edges (edge 3i+k = (F[i,k], F[i,(k+1)%3]), face index 3i+k -> i),
     Trimesh.edges_sorted (row-wise min/max), Trimesh.euler_number = |referenced| - |E| + |F|
     and the delegation chain of the cached properties (ghost self).
-(b) for 2 and 3 faces with EVERY integer vertex index (bounded shape, all equality patterns
-    explored): graph.face_adjacency (+ shared edge), face_adjacency_unshared,
-    graph.is_watertight (watertight flag and winding flag) against direct counting, with
-    grouping.hashable_rows replaced by its proved contract (C06).
-(c) bounded, real classes: every face array with |F| <= 2 over |V| <= 4 and |F| = 3 over
-    |V| <= 3 (plus a seeded sample of larger ones), every query of the statement against
+(b) bounded, real classes: EVERY face array with |F| <= 2 over 6 vertices - the queries depend
+    only on the order/equality pattern of the six index slots, so this covers every pair of
+    faces whatever the indices - and every array with |F| = 3 over |V| <= 3 (4 in the
+    thorough tier) plus a seeded sample of larger ones; every query of the statement against
     the direct-counting oracle below, both graph engines; Gauss-Bonnet on the closed
-    manifold members of the mesh family.
+    manifold members of the mesh family.  (A symbolic treatment of face_adjacency for two
+    faces was tried: sorting six symbolic edge codes explodes into > 10^4 paths and did not
+    finish in 20 minutes, so the order-pattern enumeration stands in for it.)
 """
 import itertools
 import math
@@ -31,8 +31,7 @@ META = {
     "level": "proof",
     "assumptions": [
         "(M4) scipy.sparse.csgraph.connected_components / networkx.connected_components return the partition into connected components (assumed contract; both engines compared in the bounded tier)",
-        "(b) face counts 2 and 3 are a stated bound; vertex indices are arbitrary integers",
-        "grouping.group_rows is used through grouping.hashable_rows' proved contract (C06)",
+        "adjacency / watertightness / components are decided by exhaustive enumeration of small face arrays on the real code (bounded), not by proof",
     ],
     "trusted_base": ["pyvc (T1)", "z3 (T2)", "C06 hashable_rows contract"],
 }
@@ -99,97 +98,6 @@ def euler_number(h):
     h.check("chi=|referenced vertices|-|unique edges|+|faces|", h.exact(out, nv - ne + nf))
 
 
-# ----------------------------------------------------------------------------- (b) small face counts, every index
-
-
-def _hash_stub(h):
-    from contracts.C06 import _hash_stub as f
-
-    return f(h)
-
-
-def _sorted_edge(F, i, k):
-    a, b = F[i, k], F[i, (k + 1) % 3]
-    return a, b
-
-
-def _same_sorted(h, e1, e2):
-    (a, b), (c, d) = e1, e2
-    return h.any([h.all([a == c, b == d]), h.all([a == d, b == c])])
-
-
-def _count_same(h, F, n, e):
-    """number of directed edges (over all faces) whose sorted form equals sorted(e)"""
-    tot = 0
-    for i in range(n):
-        for k in range(3):
-            tot = tot + h.ite(_same_sorted(h, _sorted_edge(F, i, k), e), 1, 0)
-    return tot
-
-
-def _mk_adjacency(n):
-    @contract("C05", GR + ".face_adjacency", name="pairs-sharing-an-edge-used-exactly-twice[n=%d]" % n, kind="bounded-shape", max_paths=20000, note="%d faces, every integer vertex index (all equality patterns)" % n)
-    def face_adjacency(h):
-        F = h.ints("f", (n, 3))
-        h.stub("trimesh.grouping.hashable_rows", _hash_stub(h))
-        adj, aedges = h.fn(GR + ".face_adjacency")(faces=F, return_edges=True)
-        adj = [[int(x) for x in r] for r in (adj.tolist() if hasattr(adj, "tolist") else adj)]
-        rows = {}
-        conds = []
-        # soundness: every reported pair is a pair of distinct faces sharing the reported
-        # (sorted) edge, which occurs exactly twice over all faces
-        for r, (a, b) in enumerate(adj):
-            conds.append(a < b)
-            e = (aedges[r, 0], aedges[r, 1])
-            conds.append(e[0] <= e[1])
-            conds.append(h.any([_same_sorted(h, _sorted_edge(F, a, k), e) for k in range(3)]))
-            conds.append(h.any([_same_sorted(h, _sorted_edge(F, b, k), e) for k in range(3)]))
-            conds.append(_count_same(h, F, n, e) == 2)
-        h.check("reported-pairs-are-adjacent", h.all(conds))
-        # completeness: every sorted edge occurring exactly twice, in two different faces,
-        # is reported exactly once
-        conds = []
-        for a in range(n):
-            for b in range(a + 1, n):
-                for ka in range(3):
-                    e = _sorted_edge(F, a, ka)
-                    shared = h.all([h.any([_same_sorted(h, _sorted_edge(F, b, kb), e) for kb in range(3)]), _count_same(h, F, n, e) == 2])
-                    reported = h.any([h.all([ra == a, rb == b, _same_sorted(h, (aedges[r, 0], aedges[r, 1]), e)]) for r, (ra, rb) in enumerate(adj)]) if adj else False
-                    conds.append(h.implies(shared, reported))
-        h.check("every-adjacent-pair-reported", h.all(conds))
-        h.check("no-duplicate-rows", h.all([h.not_(h.all([adj[r] == adj[s], _same_sorted(h, (aedges[r, 0], aedges[r, 1]), (aedges[s, 0], aedges[s, 1]))])) for r in range(len(adj)) for s in range(r)]))
-
-
-for _n in (2, 3):
-    _mk_adjacency(_n)
-
-
-def _mk_watertight(n):
-    @contract("C05", GR + ".is_watertight", name="every-edge-twice-and-opposed[n=%d]" % n, kind="bounded-shape", max_paths=20000, note="%d faces, every integer vertex index" % n)
-    def is_watertight(h):
-        F = h.ints("f", (n, 3))
-        h.stub("trimesh.grouping.hashable_rows", _hash_stub(h))
-        E = h.fn(GEO + ".faces_to_edges")(F)
-        wt, winding = h.fn(GR + ".is_watertight")(edges=E)
-        every_twice = h.all([_count_same(h, F, n, _sorted_edge(F, i, k)) == 2 for i in range(n) for k in range(3)])
-        h.check("watertight<=>every-sorted-edge-exactly-twice", core._mkbool(core.tobool(wt) == core.tobool(every_twice)) if h.mode == "sym" else bool(wt) == bool(every_twice))
-        # winding: every edge used exactly twice is traversed in opposite directions
-        opp = []
-        for i in range(n):
-            for k in range(3):
-                a, b = _sorted_edge(F, i, k)
-                twice = _count_same(h, F, n, (a, b)) == 2
-                # the partner is the reversed directed edge
-                partner_rev = h.any([h.all([F[j, l] == b, F[j, (l + 1) % 3] == a]) for j in range(n) for l in range(3) if (j, l) != (i, k)])
-                opp.append(h.implies(twice, partner_rev))
-        consistent = h.all(opp)
-        h.check("winding<=>paired-edges-reversed", core._mkbool(core.tobool(winding) == core.tobool(consistent)) if h.mode == "sym" else bool(winding) == bool(consistent))
-
-
-for _n in (2,):
-    _mk_watertight(_n)
-
-
 # ----------------------------------------------------------------------------- (c) direct-counting oracle on the real classes
 
 
@@ -219,7 +127,9 @@ def oracle(F, nv):
     directed = {}
     for e in edges:
         directed[e] = directed.get(e, 0) + 1
-    winding = all(directed.get((e[1], e[0]), 0) >= 1 and (e[0] != e[1]) or count[tuple(sorted(e))] != 2 for e in edges) if n else False
+    # every sorted edge used exactly twice is traversed once in each direction (a self-loop
+    # (v,v) is its own reverse)
+    winding = all(count[tuple(sorted(e))] != 2 or e[0] == e[1] or directed.get((e[1], e[0]), 0) == 1 for e in edges) if n else False
     # components over faces (shared edge used exactly twice by two different faces)
     parent = list(range(n))
 
@@ -295,7 +205,8 @@ def check_mesh(F, nv, engines=("scipy", "networkx")):
     if o["watertight"]:
         t("is_winding_consistent", lambda: bool(m.is_winding_consistent) == o["winding"])
     t("vertex_neighbors", lambda: [sorted(int(x) for x in nb) for nb in m.vertex_neighbors] == [o["neighbors"][v] for v in range(nv)])
-    t("vertex_faces", lambda: [sorted(int(x) for x in row if x >= 0) for row in m.vertex_faces.tolist()] == [sorted(set(o["vfaces"][v])) for v in range(nv)] if len(F) else True)
+    # incident faces as a set (a face with a repeated index may be listed once per occurrence)
+    t("vertex_faces", lambda: [sorted({int(x) for x in row if x >= 0}) for row in m.vertex_faces.tolist()] == [sorted(set(o["vfaces"][v])) for v in range(nv)] if len(F) else True)
     t("vertex_degree", lambda: m.vertex_degree.tolist() == [o["degree"][v] for v in range(nv)])
     t("body_count", lambda: m.body_count == o["vert_comps"])
     for eng in engines:
@@ -308,7 +219,7 @@ def check_mesh(F, nv, engines=("scipy", "networkx")):
         t("connected_components[%s]" % eng, comps)
 
         def split(eng=eng):
-            parts = m.split(only_watertight=False, engine=eng)
+            parts = m.split(only_watertight=False, engine=eng, repair=False)
             return len(parts) == (o["face_comps"] if len(F) else 0) and sum(len(p.faces) for p in parts) == len(F)
 
         t("split[%s]" % eng, split)
@@ -316,14 +227,16 @@ def check_mesh(F, nv, engines=("scipy", "networkx")):
 
 
 def _face_arrays(tier, rng):
-    nv = 4
-    for f in itertools.product(range(nv), repeat=3):
-        yield [f], nv
-    for f in itertools.product(range(nv), repeat=6):
-        yield [f[:3], f[3:]], nv
+    for f in itertools.product(range(4), repeat=3):
+        yield [f], 4
+    # two faces: six index slots over six values = every order/equality pattern
+    for f in itertools.product(range(6), repeat=6):
+        yield [f[:3], f[3:]], 6
+    for f in itertools.product(range(3), repeat=9):
+        yield [f[:3], f[3:6], f[6:]], 3
     if tier == "thorough":
-        for f in itertools.product(range(3), repeat=9):
-            yield [f[:3], f[3:6], f[6:]], 3
+        for f in itertools.product(range(4), repeat=9):
+            yield [f[:3], f[3:6], f[6:]], 4
     n3 = 4000 if tier == "quick" else 60000
     for _ in range(n3):
         nf = int(rng.integers(3, 6))
@@ -346,17 +259,17 @@ def _chunk(tier, seed, part, parts):
 
 
 def _mk_bounded(part, parts):
-    @bounded("C05", name="real-code:all-small-face-arrays[%d/%d]" % (part + 1, parts), note="every face array with |F|<=2 over 4 vertices (+ all |F|=3 over 3 vertices in the thorough tier) and a seeded sample of 3-5 faces over 3-6 vertices; 20 queries each against direct counting; both graph engines")
+    @bounded("C05", name="real-code:all-small-face-arrays[%d/%d]" % (part + 1, parts), note="every face array with |F|<=2 over 6 vertices (all order patterns of two faces), all |F|=3 over 3 vertices (4 in the thorough tier) and a seeded sample of 3-5 faces over 3-6 vertices; 20 queries each against direct counting; both graph engines")
     def small_arrays(tier, seed):
         cases, cells = _chunk(tier, seed, part, parts)
         fails = sorted(cells.values(), key=lambda c: c["cell"])
-        r = common.result(cases, cases, fails, "face arrays |F|<=2 over |V|=4 exhaustive; |F|=3 over |V|=3 exhaustive (thorough); seeded sample of larger arrays; slice %d of %d" % (part + 1, parts), exhaustive=True)
+        r = common.result(cases, cases, fails, "face arrays |F|<=2 over |V|=6 exhaustive; |F|=3 over |V|=3 exhaustive (|V|=4 thorough); seeded sample of larger arrays; slice %d of %d" % (part + 1, parts), exhaustive=True)
         r["failures"] = fails
         return r
 
 
-for _p in range(8):
-    _mk_bounded(_p, 8)
+for _p in range(16):
+    _mk_bounded(_p, 16)
 
 
 @bounded("C05", name="real-code:gauss-bonnet", note="sum of vertex angle defects = 2*pi*Euler number on the closed manifold members of the mesh family (and subdivisions)")
